@@ -205,6 +205,8 @@ extern "C" int harness_main()
 {
 	config cfg;
 	simulation s(cfg);
+	// one (zero-latency) queue between the nodes: the library does not support routes without any hop for TCP
+	cfg.net.append(std::make_shared<queue>(s.get_io_context(), 0, duration(0), 0, "wire"));
 	std::vector<address> ips = { addr_of(A4), addr_of(A4B), addr_of(A6) };
 	asio::io_context ios(s, ips);
 	asio::io_context iosb(s, address(address_v4(0x0a000101)));
@@ -223,6 +225,15 @@ extern "C" int harness_main()
 		hu.open(udp::v4(), e); hu.bind(udp::endpoint(addr_of(A4), 2001), e); vp_assert(!e, 6);
 		g_m[HT].open = true; g_m[HT].bound = true; g_m[HT].addr = A4; g_m[HT].port = 2001;
 		g_m[HU].open = true; g_m[HU].bound = true; g_m[HU].addr = A4; g_m[HU].port = 2001;
+	}
+	// preset (symbolic choice): nothing, or every object opened for IPv4 with the acceptor bound to (A4, 1500) and listening
+	if (vp_choose(2) == 1)
+	{
+		for (int o = 0; o < NOBJ; ++o) { error_code const e = do_open(o, true); vp_assert(!e, 7); g_m[o].open = true; g_m[o].v4 = true; }
+		error_code e;
+		g_ac->bind(tcp::endpoint(addr_of(A4), 1500), e); vp_assert(!e, 8);
+		g_ac->listen(5, e); vp_assert(!e, 9);
+		g_m[AC].bound = true; g_m[AC].addr = A4; g_m[AC].port = 1500; g_m[AC].listening = true;
 	}
 	for (int i = 0; i < K; ++i) step();
 
